@@ -62,7 +62,7 @@ CLAIMS = {
          "marked-or-only union field with each field = its expression or its type's default), ambiguous_refused (missing or duplicated "
          "designation is refused), new_eq_default, into_wrap_iff_not_natural (a bare literal is wrapped in Into::into exactly when the "
          "field type is not the literal's natural type) and non_literal_never_wrapped. Tie: real macro + rustc; oracle values are built "
-         "independently of educe; unions compared by byte image.",
+         "independently of educe; unions compared by byte image. End to end (Props/E2E.lean, structs and enums): default_handler_end_to_end with defaultVariantLoop_variantLoop (the handler's loop over the variants and the behavioural generator's are the same loop on the flags read from the variants' own attributes), defFieldAttr_off / defVariantAttr_off (where the handler switched marker and expression off, the only acceptable Default attribute is the empty list, so reading the field with the expression switched on finds nothing), fromAttrs_ok_cases, runParams_invariant / runParams_all_disabled: acceptance yields the configuration read from the same tokens, the body exists and T::default() is the reference value. Tie B6.",
          COMMON_NOTE + "the value of a user expression is an input of the model (measured by rustc), the model decides which expression goes to which field and whether Into is applied; literal kind/suffix and the field type's token string are read by syn.",
          "Lean 4 theorem + differential correspondence against independently built values"),
  "C20": ("Theorems union_generated_iff_unsafe, union_eq_bytewise, union_hash_injective / union_hash_shape (length prefix + the bytes as one "
